@@ -326,18 +326,46 @@ Emit == ~Finished \\/ PrintT(ToJson([script |-> script, err |-> err, soft |-> so
 ''' % (', '.join('"%s"' % n for n in names), body, submap, ss)
 
 
-LOGGER = r'''
+AMBIENT = r'''
+import sys, warnings
+def _ambient():
+    # process-wide state an import has no business changing ("no side effect other than defining the package")
+    import os, signal, locale, logging, threading, decimal
+    return {'warnings.filters': [repr(f) for f in warnings.filters], 'recursionlimit': sys.getrecursionlimit(), 'environ': sorted(os.environ.items()),
+            'cwd': os.getcwd(), 'sigint': repr(signal.getsignal(signal.SIGINT)), 'locale': locale.setlocale(locale.LC_ALL),
+            'logging': (logging.root.level, len(logging.root.handlers), logging.root.manager.disable), 'threads': threading.active_count(),
+            'decimal': repr(decimal.getcontext()), 'switchinterval': sys.getswitchinterval(), 'excepthook': repr(sys.excepthook),
+            'displayhook': repr(sys.displayhook), 'trace': (repr(sys.gettrace()), repr(sys.getprofile())),
+            'path': list(sys.path), 'meta_path': len(sys.meta_path), 'path_hooks': len(sys.path_hooks), 'int_max_str_digits': sys.get_int_max_str_digits()}
+import os, signal, locale, logging, threading, decimal
+'''
+
+LOGGER = AMBIENT + r'''
 import sys, importlib.abc, importlib.machinery, json
 _ev = []
+_stack = []
+_blame = {}
+_last = [None]
+def _checkpoint():
+    # whatever changed since the last begin / end event happened while the module on top of the stack was executing its own statements
+    cur = _ambient()
+    if _last[0] is not None:
+        ch = [k for k in cur if cur[k] != _last[0][k]]
+        if ch:
+            _blame.setdefault(_stack[-1] if _stack else '<script>', []).extend(ch)
+    _last[0] = cur
 class _L(importlib.abc.Loader):
     def __init__(self, inner): self.inner = inner
     def create_module(self, spec): return self.inner.create_module(spec)
     def exec_module(self, module):
         _ev.append(["begin", module.__name__])
+        _checkpoint(); _stack.append(module.__name__)
         try:
             self.inner.exec_module(module)
         except BaseException:
+            _checkpoint(); _stack.pop()
             _ev.append(["fail", module.__name__]); raise
+        _checkpoint(); _stack.pop()
         _ev.append(["end", module.__name__])
     def __getattr__(self, n): return getattr(self.inner, n)
 class _F(importlib.abc.MetaPathFinder):
@@ -348,4 +376,5 @@ class _F(importlib.abc.MetaPathFinder):
             spec.loader = _L(spec.loader)
         return spec
 sys.meta_path.insert(0, _F())
+_checkpoint()
 '''
